@@ -45,7 +45,7 @@ package http
 
 //@ func http.Handler.invalidateToken
 //@   params h ctx
-//@   props C08
+//@   props C08 C05(functional)
 //@   sweep bounds,nilmem
 //@   modifies nothing
 //@   ghostset invalidated(ctx) := True()
@@ -65,10 +65,11 @@ package http
 
 //@ func http.Handler.handleError$1
 //@   params w r
-//@   local ctx = UnOp#11 | UnOp#14 | UnOp#17 | UnOp#5 | UnOp#8
+//@   local ctx = UnOp#11 | UnOp#8
 //@   local token = UnOp#2
-//@   props C08 C10(sweep)
-//@   sweep bounds,make
+//@   props C08 C10(sweep,assert)
+//@   sweep bounds,make,nilmem
+//@   callassert HandleError#*: @configured !isnil(recv)
 //@   ensures @inval len(token) > 0 ==> invalidated(ctx) == True()
 
 // ---- client side (C05) ---------------------------------------------------------------------------
@@ -77,7 +78,7 @@ package http
 //@   props C05 C10(sweep)
 //@   sweep bounds,make,nilmem
 //@   callassert Encode#1: @tunnel ? sess != nil ==> EncryptedBy(u(unwrap(arg1))) == u(sess)
-//@   callassert handleResponse#1: @sess u(arg2) == u(sess)
+//@   callassert handleResponse#1: @sess u(arg2) == u(old(sess))
 
 //@ func http.Transport.handleResponse
 //@   params t resp sess
@@ -87,4 +88,5 @@ package http
 //@   sweep bounds,make,nilmem
 //@   requires @request resp.Request != nil && resp.Request.URL != nil
 //@   ensures @tunnel ? err == nil && sess != nil && msgType != 255 ==> PlainOf(BufOf(InnerOf(u(result1)))) == u(sess)
+//@   ensures @errtype ? err == nil && old(resp.StatusCode) != 200 ==> msgType == 255
 //@   ensures @bounded ? err == nil && old(t.MaxContentLength) >= 0 ==> old(resp.ContentLength) >= 0 && imp(old(t.MaxContentLength) > 0, old(resp.ContentLength) <= old(t.MaxContentLength)) && imp(old(t.MaxContentLength) == 0, old(resp.ContentLength) <= 65535)
